@@ -999,7 +999,21 @@ pub fn generate(rng: &mut Rng, cfg: &GenCfg) -> Option<Program> {
         let op = gen_op(rng, cfg);
         // a row with a public input directly followed by (or following) the same selector tuple
         // without one: descriptions that share one polynomial between the two kinds of rows
+        // ... or two adjacent rows that agree in every selector but one (the fourth-wire selector,
+        // the constant): descriptions in which neighbouring selector tuples are almost equal
+        let almost = match &op {
+            Op::GateAdd { l, r, f, c, a, b, d, pi } if rng.chance(1, 8) => {
+                if rng.chance(1, 2) {
+                    Some(Op::GateAdd { l: *l, r: *r, f: *f + Sc::one(), c: *c, a: *a, b: *b, d: *d, pi: *pi })
+                } else {
+                    Some(Op::GateAdd { l: *l, r: *r, f: *f, c: *c + Sc::one(), a: *a, b: *b, d: *d, pi: *pi })
+                }
+            }
+            Op::GateMul { m, f, c, a, b, d, pi } if rng.chance(1, 8) => Some(Op::GateMul { m: *m, f: *f + Sc::one(), c: *c, a: *a, b: *b, d: *d, pi: *pi }),
+            _ => None,
+        };
         let twin = match &op {
+            _ if almost.is_some() => almost,
             Op::EvalOut { q, a, b, d, pi } if q[3] != Sc::zero() && rng.chance(1, 4) => Some(Op::EvalOut { q: *q, a: *a, b: *b, d: *d, pi: !*pi }),
             Op::GateAdd { l, r, f, c, a, b, d, pi } if rng.chance(1, 4) => Some(Op::GateAdd { l: *l, r: *r, f: *f, c: *c, a: *a, b: *b, d: *d, pi: !*pi }),
             Op::GateMul { m, f, c, a, b, d, pi } if rng.chance(1, 4) => Some(Op::GateMul { m: *m, f: *f, c: *c, a: *a, b: *b, d: *d, pi: !*pi }),
